@@ -108,6 +108,15 @@ def dep_order(T: Trace, case: Dict[str, Any]) -> List[Finding]:
 # ------------------------------------------------------------------------------------ C03
 def exactly_once(T: Trace, case: Dict[str, Any]) -> List[Finding]:
     M, out = T.M, T.out
+    if out.exc is not None and case.get("spawn_fail") is not None and out.ref_exc is None:
+        # the call failed on the injected resource fault: nothing is owed, but no call site may have been entered twice
+        if out.ref is None:
+            return []
+        want_ = Counter(M.site_of_key.get(k, k) for (_f, k, _a, _kw) in out.ref.obs)
+        twice = {s: len(es) for s, es in T.enter.items() if len(es) > want_.get(s, 0)}
+        if twice:
+            return [("ran-twice-or-unselected", f"entered more than once in an execution that failed on a pool fault: {twice}", None)]
+        return []
     if out.exc is not None or out.ref_exc is not None or out.ref is None:
         return []
     got = Counter()
